@@ -1,185 +1,272 @@
-"""IDXEVAL — relational abstract interpretation of index-normalisation kernels.
+"""IDXEVAL — relational abstract interpretation of the index / slice normalisation kernels.
 
-Values are linear forms  a*idx + b*len + c  over the two symbolic inputs of a kernel (the index argument and the
-container length); the abstract state also carries a convex polyhedron over (idx, len) that records every branch
-decision taken so far. A comparison of two linear forms that is not decided by the polyhedron SPLITS the state (the
-polyhedron is refined with the condition and with its negation), so every leaf of the exploration is a region of the
-input space on which the kernel's behaviour is a single outcome: raise / None / access element <form> / Some(<form>).
-The leaves are compared with Python's definition:
+Values are linear forms over a few symbolic inputs of a kernel (the index or slice start `idx`, the container length
+`len`, the slice end `end`, the slice `step`); the abstract state also carries a convex polyhedron over those inputs
+that records every branch decision taken so far. A comparison of two linear forms that is not decided by the
+polyhedron SPLITS the state (the polyhedron is refined with the condition and with its negation), so every leaf of the
+exploration is a region of the input space on which the kernel's behaviour is one outcome (raise / None / Some(form) /
+element accesses at given forms). Leaves are compared with Python's definition of indexing and of `slice.indices`.
 
-    idx < -len            -> out of range          -len <= idx < 0   -> element  idx + len
-    0 <= idx < len        -> element  idx          idx >= len        -> out of range
-
-Nothing is executed and no concrete value is ever computed: the input space is covered by finitely many polyhedra.
-Operations without a transfer function yield TOP; a path that branched on TOP is 'imprecise' and is never reported (it
-is counted in the evidence as undecided) — this engine only reports violations it can state with a region.
+Nothing is executed and no concrete value is ever computed: the input space is covered by finitely many polyhedra;
+emptiness and bounds are decided by Fourier–Motzkin elimination over the rationals. Operations without a transfer
+function yield TOP; a path that branched on TOP is 'imprecise' and is never reported (it is counted in the evidence as
+undecided). A violation is reported only together with an integer witness found inside its region.
 """
 from fractions import Fraction
+from itertools import product
 
 from engines import callee_generic, callee_name, op_place
 
 TOP = ("top",)
+HUGE = ("huge",)
 UNIT = ("unit",)
+VARS = ("idx", "len", "end", "step")
+N = len(VARS)
+ZERO = (0,) * N
 
 
-def lin(a, b, c):
-    return ("lin", a, b, c)
+def lin(coeffs, c=0):
+    return ("lin", tuple(coeffs), c)
 
 
-IDX = lin(1, 0, 0)
-LEN = lin(0, 1, 0)
+def var(name):
+    return lin(tuple(1 if v == name else 0 for v in VARS), 0)
+
+
+def const(c):
+    return lin(ZERO, c)
+
+
+IDX, LEN, END, STEP = var("idx"), var("len"), var("end"), var("step")
 
 
 def is_lin(v):
-    return isinstance(v, tuple) and v and v[0] == "lin"
+    return isinstance(v, tuple) and len(v) == 3 and v[0] == "lin"
 
 
 def ladd(x, y):
-    return lin(x[1] + y[1], x[2] + y[2], x[3] + y[3])
+    return lin(tuple(a + b for a, b in zip(x[1], y[1])), x[2] + y[2])
 
 
 def lneg(x):
-    return lin(-x[1], -x[2], -x[3])
+    return lin(tuple(-a for a in x[1]), -x[2])
 
 
 def lsub(x, y):
     return ladd(x, lneg(y))
 
 
+def lscale(x, k):
+    return lin(tuple(a * k for a in x[1]), x[2] * k)
+
+
+def is_const(x):
+    return is_lin(x) and all(a == 0 for a in x[1])
+
+
 def fmt(v):
     if not is_lin(v):
         return str(v)
     parts = []
-    for co, nm in ((v[1], "idx"), (v[2], "len")):
+    for co, nm in zip(v[1], VARS):
         if co == 0:
             continue
-        parts.append(("-" if co < 0 else "+") + ("" if abs(co) == 1 else str(abs(co)) + "*") + nm)
-    if v[3] or not parts:
-        parts.append(("-" if v[3] < 0 else "+") + str(abs(v[3])))
+        parts.append(("- " if co < 0 else "+ ") + ("" if abs(co) == 1 else str(abs(co)) + "*") + nm)
+    if v[2] or not parts:
+        parts.append(("- " if v[2] < 0 else "+ ") + str(abs(v[2])))
     s = " ".join(parts)
-    return s[1:].strip() if s.startswith("+") else s
+    return s[2:] if s.startswith("+ ") else s
 
 
 # ----------------------------------------------------------------------------------------------------------------
-# 2-D polyhedra over (x = idx, y = len):  list of (a, b, c) meaning a*x + b*y + c >= 0
+# polyhedra:  list of (coeffs, c) meaning  coeffs . x + c >= 0 ; decisions by Fourier-Motzkin elimination
+def _norm(con):
+    co, c = con
+    return (tuple(Fraction(a) for a in co), Fraction(c))
+
+
+def _fm_eliminate(cons, j):
+    pos, neg, zero = [], [], []
+    for (co, c) in cons:
+        (pos if co[j] > 0 else neg if co[j] < 0 else zero).append((co, c))
+    out = set(zero)
+    for (cp, kp) in pos:
+        for (cn, kn) in neg:
+            a, b = cp[j], -cn[j]
+            co = tuple(b * x + a * y for x, y in zip(cp, cn))
+            c = b * kp + a * kn
+            # normalise scale to keep the set small
+            m = max([abs(x) for x in co] + [abs(c)]) or 1
+            out.add((tuple(x / m for x in co), c / m))
+    return list(out)
+
+
 class Poly:
     def __init__(self, cons=()):
-        self.cons = list(cons)
+        self.cons = [(_norm(c)) for c in cons]
+        self._empty = None
 
     def with_(self, con):
-        return Poly(self.cons + [con])
+        p = Poly()
+        p.cons = self.cons + [_norm(con)]
+        return p
 
-    def _points(self):
-        pts = []
-        cs = self.cons
-        for i in range(len(cs)):
-            for j in range(i + 1, len(cs)):
-                a1, b1, c1 = cs[i]
-                a2, b2, c2 = cs[j]
-                det = a1 * b2 - a2 * b1
-                if det == 0:
-                    continue
-                x = Fraction(-c1 * b2 + c2 * b1, det)
-                y = Fraction(-a1 * c2 + a2 * c1, det)
-                pts.append((x, y))
-        for (a, b, c) in cs:       # points on each boundary line (for polyhedra without vertices)
-            if a != 0:
-                pts.append((Fraction(-c, a), Fraction(0)))
-            if b != 0:
-                pts.append((Fraction(0), Fraction(-c, b)))
-        pts.append((Fraction(0), Fraction(0)))
-        return [p for p in pts if all(a * p[0] + b * p[1] + c >= 0 for (a, b, c) in cs)]
-
-    def _rays(self):
-        cand = [(0, 1), (1, 0), (-1, 0), (0, -1)]
-        for (a, b, c) in self.cons:
-            cand += [(-b, a), (b, -a)]
-        return [d for d in cand if d != (0, 0) and all(a * d[0] + b * d[1] >= 0 for (a, b, c) in self.cons)]
+    def _project_all(self, cons, extra_dims=0):
+        dims = N + extra_dims
+        for j in range(N):
+            cons = _fm_eliminate(cons, j)
+            if len(cons) > 4000:
+                return None
+        return cons
 
     def empty(self):
-        return not self._points()
+        if self._empty is None:
+            cons = self._project_all(list(self.cons))
+            self._empty = False if cons is None else any(c < 0 for (co, c) in cons)
+        return self._empty
 
     def bounds(self, f):
-        """(min, max) of the linear form f over the polyhedron; None = unbounded."""
-        pts = self._points()
-        if not pts:
-            return (None, None)
-        vals = [f[1] * x + f[2] * y + f[3] for (x, y) in pts]
-        lo, hi = min(vals), max(vals)
-        for (dx, dy) in self._rays():
-            g = f[1] * dx + f[2] * dy
-            if g < 0:
-                lo = None
-            if g > 0:
-                hi = None
+        """(min, max) of the linear form over the polyhedron (rational relaxation); None = unbounded."""
+        # add t as dimension N:  t - f >= 0  and  f - t >= 0
+        cons = [(co + (Fraction(0),), c) for (co, c) in self.cons]
+        fco = tuple(Fraction(a) for a in f[1])
+        cons.append((tuple(-a for a in fco) + (Fraction(1),), Fraction(-f[2])))
+        cons.append((fco + (Fraction(-1),), Fraction(f[2])))
+        for j in range(N):
+            cons = _fm_eliminate(cons, j)
+            if len(cons) > 4000:
+                return (None, None)
+        lo, hi = None, None
+        for (co, c) in cons:
+            a = co[N]
+            if a > 0:        # a t + c >= 0  ->  t >= -c/a
+                v = -c / a
+                lo = v if lo is None or v > lo else lo
+            elif a < 0:      # t <= c/(-a)
+                v = c / (-a)
+                hi = v if hi is None or v < hi else hi
+            elif c < 0:
+                return ("empty", "empty")
         return (lo, hi)
 
     def always_ge0(self, f):
         lo, _ = self.bounds(f)
-        return lo is not None and lo >= 0
+        return lo == "empty" or (lo is not None and lo > -1)       # integer-valued: > -1 means >= 0
 
     def always_lt0(self, f):
         _, hi = self.bounds(f)
-        return hi is not None and hi < 0
+        return hi == "empty" or (hi is not None and hi < 0)
+
+    def sat(self, point):
+        return all(sum(a * x for a, x in zip(co, point)) + c >= 0 for (co, c) in self.cons)
 
     def witness(self):
-        for ln in range(0, 6):
-            for ix in range(-8, 9):
-                if all(a * ix + b * ln + c >= 0 for (a, b, c) in self.cons):
-                    return {"idx": ix, "len": ln}
+        used = [any(co[j] != 0 for (co, c) in self.cons) for j in range(N)]
+        ranges = []
+        for j, nm in enumerate(VARS):
+            if not used[j]:
+                ranges.append((0,) if nm != "step" else (1,))
+            elif nm == "len":
+                ranges.append(tuple(range(0, 7)))
+            elif nm == "step":
+                ranges.append((1, -1, 2, -2, 3, -3))
+            else:
+                ranges.append(tuple(sorted(range(-9, 10), key=abs)))
+        for pt in product(*ranges):
+            if self.sat(pt):
+                return dict(zip(VARS, pt))
         return None
 
 
 def ge0(f):     # f >= 0
-    return (f[1], f[2], f[3])
+    return (f[1], f[2])
 
 
 def lt0(f):     # f < 0  <=>  -f - 1 >= 0   (integers)
-    return (-f[1], -f[2], -f[3] - 1)
+    return (tuple(-a for a in f[1]), -f[2] - 1)
 
 
 # ----------------------------------------------------------------------------------------------------------------
 class State:
-    __slots__ = ("env", "poly", "precise", "block")
+    __slots__ = ("env", "poly", "precise", "block", "trace", "visits", "why")
 
-    def __init__(self, env, poly, precise=True, block=0):
+    def __init__(self, env, poly, precise=True, block=0, trace=(), visits=None, why=None):
         self.env, self.poly, self.precise, self.block = env, poly, precise, block
+        self.trace = trace
+        self.visits = visits or {}
+        self.why = why
 
     def fork(self, poly=None, block=None):
         return State(dict(self.env), poly if poly is not None else self.poly, self.precise,
-                     self.block if block is None else block)
+                     self.block if block is None else block, self.trace, dict(self.visits), self.why)
 
 
+SELECTIVE_OPS = ("skip", "take", "step_by", "rev", "nth", "skip_while", "take_while", "filter", "filter_map", "zip",
+                 "chunks", "windows", "split_at", "drain", "truncate", "get_unchecked", "last", "first", "split_off",
+                 "char_indices", "bytes", "get_mut", "swap", "reverse", "retain")
 INT_BIN = {"Add", "Sub", "AddWithOverflow", "SubWithOverflow", "AddUnchecked", "SubUnchecked"}
 CMP = {"Lt": lambda a, b: (lsub(a, b), True), "Ge": lambda a, b: (lsub(a, b), False),
        "Gt": lambda a, b: (lsub(b, a), True), "Le": lambda a, b: (lsub(b, a), False)}
 
 
 class IdxEvaluator:
-    """evaluate(f, args) -> list of leaves (poly, outcome, precise); outcome in
-       ("raise",) ("return", value) ("access", form) ("diverge",)"""
+    """evaluate(f, args, poly) -> list of leaves (poly, outcome, precise, trace); outcome in
+       ("raise",) ("return", value) ("access", form) ("limit",) ("giveup",)"""
 
-    def __init__(self, F, max_states=4000):
+    def __init__(self, F, max_states=6000, loop_limit=3):
         self.F = F
         self.max_states = max_states
+        self.loop_limit = loop_limit
         self.steps = 0
+        self.reasons = set()
 
     # -- operands / places --------------------------------------------------------------------------------------
     def place_val(self, st, pl):
         v = st.env.get(pl["l"], TOP)
         for e in pl["p"]:
-            if e[0] == "deref":
+            if e[0] in ("deref", "dc"):
                 continue
-            if e[0] == "f" and isinstance(v, tuple) and v and v[0] in ("opt", "res") and len(v) > 2:
-                v = v[2]
+            if e[0] == "f" and isinstance(v, tuple) and v and v[0] in ("opt", "res"):
+                v = v[2] if len(v) > 2 else TOP
                 continue
-            if e[0] == "dc":
+            if e[0] == "t" and isinstance(v, tuple) and v and v[0] in ("pair", "tuple"):
+                try:
+                    v = v[1 + int(e[1])]
+                except Exception:
+                    return TOP
                 continue
-            if e[0] == "f" and isinstance(v, tuple) and v and v[0] == "pair":
+            if e[0] == "up" and isinstance(v, tuple) and v and v[0] == "closure":
+                try:
+                    v = v[2][int(e[1])]
+                except Exception:
+                    return TOP
+                continue
+            if e[0] == "t" and isinstance(v, tuple) and v and v[0] == "closure":
+                try:
+                    v = v[2][int(e[1])]
+                except Exception:
+                    return TOP
+                continue
+            if e[0] == "f" and isinstance(v, tuple) and v and v[0] == "closure":
+                try:
+                    v = v[2][int(e[3])]
+                except Exception:
+                    return TOP
+                continue
+            if e[0] == "f" and isinstance(v, tuple) and v and v[0] == "tuple":
                 try:
                     v = v[1 + int(e[3])]
                 except Exception:
                     return TOP
+                continue
+            if e[0] == "f" and isinstance(v, tuple) and v and v[0] in ("pair", "range"):
+                try:
+                    v = v[1 + int(e[3])]
+                except Exception:
+                    if v[0] == "range" and e[3] in ("start", "end"):
+                        v = v[1] if e[3] == "start" else v[2]
+                    else:
+                        return TOP
                 continue
             return TOP
         return v
@@ -188,7 +275,7 @@ class IdxEvaluator:
         if "c" in o:
             t = o["c"].split("_")[0]
             if t.lstrip("-").isdigit():
-                return lin(0, 0, int(t))
+                return const(int(t))
             if o["c"] in ("true", "false"):
                 return ("bool", o["c"] == "true")
             if o["c"] == "()":
@@ -200,6 +287,8 @@ class IdxEvaluator:
     # -- splitting ----------------------------------------------------------------------------------------------
     def split_sign(self, st, f):
         """-> [(state, True if f < 0 else False)] refined so that the sign of f is constant."""
+        if is_const(f):
+            return [(st, f[2] < 0)]
         if st.poly.always_lt0(f):
             return [(st, True)]
         if st.poly.always_ge0(f):
@@ -211,9 +300,19 @@ class IdxEvaluator:
                 out.append((st.fork(poly=p), neg))
         return out
 
+    def split_in_range(self, st, f):
+        """-> [(state, True if 0 <= f < len)]"""
+        out = []
+        for s1, neg in self.split_sign(st, f):
+            if neg:
+                out.append((s1, False))
+                continue
+            for s2, below in self.split_sign(s1, lsub(f, LEN)):
+                out.append((s2, below))
+        return out
+
     # -- rvalues ------------------------------------------------------------------------------------------------
     def assign(self, st, s):
-        """-> list of successor states (splits may happen in casts / comparisons)."""
         d = s["d"]
         rv = s["rv"]
         r = rv["r"]
@@ -231,10 +330,8 @@ class IdxEvaluator:
             v = self.operand(st, rv["o"])
             ty = rv.get("ty", "")
             if is_lin(v) and ty.startswith("u"):
-                out = []
-                for s2, neg in self.split_sign(st, v):
-                    out.append(put(s2, TOP if neg else v))      # a negative value wraps: no linear form
-                return out
+                # a negative value wraps to something beyond every possible length
+                return [put(s2, HUGE if neg else v) for s2, neg in self.split_sign(st, v)]
             return [put(st, v if is_lin(v) else TOP)]
         if r == "un":
             v = self.operand(st, rv["o"])
@@ -256,9 +353,9 @@ class IdxEvaluator:
                     return [put(st, ("pair", v, ("bool", False)))]
                 return [put(st, v)]
             if op in ("Mul", "MulWithOverflow") and is_lin(a) and is_lin(b):
-                k, x = (a, b) if (a[1] == 0 and a[2] == 0) else (b, a)
-                if k[1] == 0 and k[2] == 0:
-                    return [put(st, lin(x[1] * k[3], x[2] * k[3], x[3] * k[3]))]
+                k, x = (a, b) if is_const(a) else (b, a)
+                if is_const(k):
+                    return [put(st, lscale(x, k[2]))]
                 return [put(st, TOP)]
             if op in CMP and is_lin(a) and is_lin(b):
                 f, when_neg = CMP[op](a, b)
@@ -270,11 +367,14 @@ class IdxEvaluator:
                     if neg:
                         out.append(put(s2, ("bool", op == "Ne")))
                     else:
-                        for s3, neg2 in self.split_sign(s2, lneg(f)):     # f >= 0: is -f < 0 (f > 0) ?
+                        for s3, neg2 in self.split_sign(s2, lneg(f)):
                             out.append(put(s3, ("bool", (op == "Ne") if neg2 else (op == "Eq"))))
                 return out
-            if op in ("BitAnd", "BitOr") and a[0] == "bool" and b[0] == "bool":
-                return [put(st, ("bool", (a[1] and b[1]) if op == "BitAnd" else (a[1] or b[1])))]
+            if op in ("Eq", "Ne") and a[0] == "bool" and b[0] == "bool":
+                return [put(st, ("bool", (a[1] == b[1]) == (op == "Eq")))]
+            if op in ("BitAnd", "BitOr", "BitXor") and a[0] == "bool" and b[0] == "bool":
+                val = (a[1] and b[1]) if op == "BitAnd" else (a[1] or b[1]) if op == "BitOr" else (a[1] != b[1])
+                return [put(st, ("bool", val))]
             return [put(st, TOP)]
         if r == "agg":
             if rv.get("ak") == "adt" and rv.get("adt", "").endswith("option::Option"):
@@ -283,8 +383,14 @@ class IdxEvaluator:
             if rv.get("ak") == "adt" and rv.get("adt", "").endswith("result::Result"):
                 pay = self.operand(st, rv["ops"][0]) if rv["ops"] else None
                 return [put(st, ("res", rv["variant"]) + ((pay,) if pay is not None else ()))]
+            if rv.get("ak") == "adt" and rv.get("adt", "").endswith("ops::range::Range") and len(rv["ops"]) == 2:
+                return [put(st, ("range", self.operand(st, rv["ops"][0]), self.operand(st, rv["ops"][1])))]
             if rv.get("ak") == "tuple" and len(rv["ops"]) == 2:
                 return [put(st, ("pair", self.operand(st, rv["ops"][0]), self.operand(st, rv["ops"][1])))]
+            if rv.get("ak") == "tuple":
+                return [put(st, ("tuple",) + tuple(self.operand(st, o) for o in rv["ops"]))]
+            if rv.get("ak") == "closure":
+                return [put(st, ("closure", rv.get("def"), tuple(self.operand(st, o) for o in rv["ops"])))]
             return [put(st, TOP)]
         if r == "discr":
             v = self.place_val(st, rv["p"])
@@ -295,47 +401,76 @@ class IdxEvaluator:
 
     # -- calls --------------------------------------------------------------------------------------------------
     def call(self, st, t, depth):
-        """-> list of (state, result value or ('raise',)/('diverge',))"""
         g = callee_generic(t) or ""
         n = callee_name(t) or ""
         last = g.split("::")[-1].split("<")[0]
         args = [self.operand(st, o) for o in t["args"]]
+        who = (t["f"].get("self") or "") + " " + g + " " + t["f"].get("inst", "")
         if n.endswith("errors::raise") or t.get("to") is None:
             return [(st, ("raise",))]
         if last == "len" and ("slice" in g or "Vec" in g or "str" in g):
             return [(st, LEN)]
+        if last == "get" and ("slice" in g or "Vec" in g) and len(args) == 2:
+            if not is_lin(args[1]):
+                return [(st, TOP)]
+            out = []
+            for s2, inr in self.split_in_range(st, args[1]):
+                s2.trace = s2.trace + (("get", args[1], inr),)
+                out.append((s2, ("opt", "Some", TOP) if inr else ("opt", "None")))
+            return out
         if last in ("unsigned_abs", "abs") and args and is_lin(args[0]):
             return [(s2, lneg(args[0]) if neg else args[0]) for s2, neg in self.split_sign(st, args[0])]
         if last in ("saturating_sub", "saturating_add", "wrapping_add", "wrapping_sub") and len(args) == 2 and \
                 is_lin(args[0]) and is_lin(args[1]):
             v = lsub(args[0], args[1]) if last.endswith("sub") else ladd(args[0], args[1])
-            unsigned = "usize" in (t["f"].get("self") or g) or "u64" in (t["f"].get("self") or g)
+            unsigned = "usize" in who or "u64" in who
             if unsigned and last == "saturating_sub":
-                return [(s2, lin(0, 0, 0) if neg else v) for s2, neg in self.split_sign(st, v)]
+                return [(s2, const(0) if neg else v) for s2, neg in self.split_sign(st, v)]
             if unsigned and last == "wrapping_sub":
                 return [(s2, TOP if neg else v) for s2, neg in self.split_sign(st, v)]
             return [(st, v)]
         if last in ("checked_sub", "checked_add") and len(args) == 2 and is_lin(args[0]) and is_lin(args[1]):
             v = lsub(args[0], args[1]) if last.endswith("sub") else ladd(args[0], args[1])
-            unsigned = "usize" in (t["f"].get("self") or g)
-            if unsigned:
+            if "usize" in who:
                 return [(s2, ("opt", "None") if neg else ("opt", "Some", v)) for s2, neg in self.split_sign(st, v)]
             return [(st, ("opt", "Some", v))]
         if last in ("min", "max") and len(args) == 2 and is_lin(args[0]) and is_lin(args[1]):
             f = lsub(args[0], args[1])
             return [(s2, (args[0] if neg else args[1]) if last == "min" else (args[1] if neg else args[0]))
                     for s2, neg in self.split_sign(st, f)]
+        if last == "clamp" and len(args) == 3 and all(is_lin(a) for a in args):
+            v, lo, hi = args
+            out = []
+            for s1, below in self.split_sign(st, lsub(v, lo)):
+                if below:
+                    out.append((s1, lo))
+                    continue
+                for s2, not_above in self.split_sign(s1, lsub(v, ladd(hi, const(1)))):
+                    out.append((s2, v if not_above else hi))
+            return out
+        if last == "contains" and len(args) == 2 and isinstance(args[0], tuple) and args[0][0] == "range" and \
+                is_lin(args[1]) and is_lin(args[0][1]) and is_lin(args[0][2]):
+            lo, hi, x = args[0][1], args[0][2], args[1]
+            out = []
+            for s1, below in self.split_sign(st, lsub(x, lo)):
+                if below:
+                    out.append((s1, ("bool", False)))
+                    continue
+                for s2, inside in self.split_sign(s1, lsub(x, hi)):
+                    out.append((s2, ("bool", inside)))
+            return out
+        if last in ("unwrap_or",) and len(args) == 2 and isinstance(args[0], tuple) and args[0][0] == "opt":
+            return [(st, (args[0][2] if len(args[0]) > 2 else TOP) if args[0][1] == "Some" else args[1])]
         if last in ("try_from", "try_into") and args and is_lin(args[0]):
-            inst = t["f"].get("inst", "") + (t["f"].get("self") or "")
-            if "usize" in inst or "u64" in inst:
+            if "usize" in who or "u64" in who:
                 return [(s2, ("res", "Err", TOP) if neg else ("res", "Ok", args[0]))
                         for s2, neg in self.split_sign(st, args[0])]
             return [(st, ("res", "Ok", args[0]))]
-        if last in ("from", "into", "clone", "deref", "borrow", "as_ref") and len(args) == 1:
+        if last in ("from", "into", "clone", "deref", "borrow", "as_ref", "as_slice", "as_deref") and len(args) == 1:
             return [(st, args[0])]
-        if last in ("ok",) and args and isinstance(args[0], tuple) and args[0][0] == "res":
+        if last == "ok" and args and isinstance(args[0], tuple) and args[0][0] == "res":
             v = args[0]
-            return [(st, ("opt", "Some", v[2]) if v[1] == "Ok" else ("opt", "None"))]
+            return [(st, ("opt", "Some", v[2] if len(v) > 2 else TOP) if v[1] == "Ok" else ("opt", "None"))]
         if last in ("unwrap", "expect") and args and isinstance(args[0], tuple) and args[0][0] in ("opt", "res"):
             v = args[0]
             if v[1] in ("Some", "Ok"):
@@ -345,13 +480,72 @@ class IdxEvaluator:
                 args[0][0] in ("opt", "res"):
             yes = args[0][1] in ("Some", "Ok")
             return [(st, ("bool", yes if last in ("is_some", "is_ok") else not yes))]
-        # crate-local helper taking the symbolic values: inline
-        h = self.F.fns.get(n)
-        if h is not None and depth < 3 and any(is_lin(a) for a in args) and len(h.blocks) < 60:
+        # positions of a container visited in order: ("iter", lo, hi) = lo, lo+1, .., hi-1 (clipped to the container)
+        if last in ("iter", "chars", "into_iter") and len(args) == 1 and ("slice" in g or "Vec" in g or "str" in g
+                                                                       or "IntoIterator" in g):
+            return [(st, ("iter", const(0), LEN))]
+        if last in ("cloned", "copied", "by_ref", "peekable", "fuse") and args and isinstance(args[0], tuple) and \
+                args[0] and args[0][0] == "iter":
+            return [(st, args[0])]
+        if last == "skip" and len(args) == 2 and isinstance(args[0], tuple) and args[0][0] == "iter":
+            if args[1] == HUGE:
+                return [(st, ("iter", args[0][2], args[0][2]))]
+            if is_lin(args[1]):
+                return [(st, ("iter", ladd(args[0][1], args[1]), args[0][2]))]
+        if last == "take" and len(args) == 2 and isinstance(args[0], tuple) and args[0][0] == "iter":
+            if args[1] == HUGE:
+                return [(st, args[0])]
+            if is_lin(args[1]):
+                lo, hi = args[0][1], args[0][2]
+                cand = ladd(lo, args[1])
+                return [(s2, ("iter", lo, cand if shorter else hi))
+                        for s2, shorter in self.split_sign(st, lsub(cand, hi))]
+        if last == "count" and args and isinstance(args[0], tuple) and args[0] and args[0][0] == "iter":
+            return [(st, lsub(args[0][2], args[0][1]))]
+        if last == "collect" and args and isinstance(args[0], tuple) and args[0] and args[0][0] == "iter":
+            lo, hi = args[0][1], args[0][2]
             out = []
-            for (poly, outcome, precise) in self._run(h, args, st.poly, depth + 1):
+            for s1, beyond in self.split_sign(st, lsub(LEN, hi)):        # hi > len: clip
+                h2 = LEN if beyond else hi
+                out.append((s1, ("seq", lo, h2)))          # a new container holding positions lo..h2 of the original
+            return out
+        if last in SELECTIVE_OPS and ("iter" in g.lower() or "slice" in g or "Vec" in g or "str" in g):
+            s2 = st.fork()
+            if s2.precise:
+                s2.why = "elements are selected through `%s`, which this engine does not model" % last
+            s2.precise = False
+            return [(s2, TOP)]
+        # closures: inline with their captured values
+        if last in ("call", "call_mut", "call_once") and args and isinstance(args[0], tuple) and args[0] and \
+                args[0][0] == "closure" and args[0][1] in self.F.fns and depth < 3:
+            h = self.F.fns[args[0][1]]
+            spread = []
+            if len(args) > 1:
+                tv = args[1]
+                if isinstance(tv, tuple) and tv and tv[0] == "pair":
+                    spread = [tv[1], tv[2]]
+                elif isinstance(tv, tuple) and tv and tv[0] == "tuple":
+                    spread = list(tv[1:])
+                else:
+                    spread = [tv]
+            out = []
+            for (poly, outcome, precise, trace) in self._run(h, [args[0]] + spread, st.poly, depth + 1, st.trace):
                 s2 = st.fork(poly=poly)
                 s2.precise = st.precise and precise
+                s2.trace = trace
+                out.append((s2, outcome[1] if outcome[0] == "return" else outcome))
+            return out
+        # crate-local helper taking symbolic values: inline
+        h = self.F.fns.get(n)
+        if h is not None and depth < 3 and (
+                (len(h.blocks) < 80 and any(is_lin(a) or (isinstance(a, tuple) and a and a[0] in ("opt", "iter", "seq"))
+                                            for a in args)) or
+                (len(h.blocks) < 25 and h.crate in ("incan_core", "incan_stdlib") and "errors" not in n)):
+            out = []
+            for (poly, outcome, precise, trace) in self._run(h, args, st.poly, depth + 1, st.trace):
+                s2 = st.fork(poly=poly)
+                s2.precise = st.precise and precise
+                s2.trace = trace
                 if outcome[0] == "return":
                     out.append((s2, outcome[1]))
                 elif outcome[0] == "access":
@@ -364,25 +558,25 @@ class IdxEvaluator:
     # -- driver -------------------------------------------------------------------------------------------------
     def evaluate(self, f, args, poly=None):
         self.steps = 0
-        return self._run(f, args, poly or Poly([(0, 1, 0)]), 0)
+        return self._run(f, args, poly or Poly([ge0(LEN)]), 0, ())
 
-    def _run(self, f, args, poly, depth):
+    def _run(self, f, args, poly, depth, trace):
         env = {}
         for i, a in enumerate(args):
             env[i + 1] = a
         leaves = []
-        work = [State(env, poly, True, 0)]
-        visits = {}
+        work = [State(env, poly, True, 0, trace)]
         while work:
             st = work.pop()
             self.steps += 1
             if self.steps > self.max_states:
-                leaves.append((st.poly, ("giveup",), False))
+                leaves.append((st.poly, ("giveup",), False, st.trace))
                 continue
-            key = st.block
-            visits[key] = visits.get(key, 0) + 1
-            if visits[key] > 400:                  # a loop: this engine does not handle them
-                leaves.append((st.poly, ("giveup",), False))
+            st.visits[st.block] = st.visits.get(st.block, 0) + 1
+            if st.visits[st.block] > self.loop_limit:
+                leaves.append((st.poly, ("limit",), st.precise, st.trace))
+                if not st.precise and st.why:
+                    self.reasons.add(st.why)
                 continue
             b = f.blocks[st.block]
             states = [st]
@@ -401,21 +595,24 @@ class IdxEvaluator:
                 elif k in ("drop", "falseedge", "falseunwind"):
                     work.append(s0.fork(block=t.get("to", t.get("real"))))
                 elif k == "return":
-                    leaves.append((s0.poly, ("return", s0.env.get(0, TOP)), s0.precise))
+                    leaves.append((s0.poly, ("return", s0.env.get(0, TOP)), s0.precise, s0.trace))
+                    if not s0.precise and s0.why:
+                        self.reasons.add(s0.why)
                 elif k in ("unreachable", "resume"):
                     continue
                 elif k == "assert":
                     if t.get("msg") == "bounds":
-                        leaves.append((s0.poly, ("access", self.operand(s0, t["index"])), s0.precise))
+                        leaves.append((s0.poly, ("access", self.operand(s0, t["index"])), s0.precise, s0.trace))
                     else:
                         work.append(s0.fork(block=t["to"]))
                 elif k == "switch":
                     v = self.operand(s0, t["on"])
                     targets = t["targets"]
                     if isinstance(v, tuple) and v[0] == "bool":
-                        tg = [x for val, x in targets if val == "0"] if not v[1] else [t["otherwise"]]
-                        if v[1] and any(val == "1" for val, _ in targets):
-                            tg = [x for val, x in targets if val == "1"]
+                        if v[1]:
+                            tg = [x for val, x in targets if val == "1"] or [t["otherwise"]]
+                        else:
+                            tg = [x for val, x in targets if val == "0"] or [t["otherwise"]]
                         for x in tg:
                             work.append(s0.fork(block=x))
                     elif isinstance(v, tuple) and v[0] == "variant":
@@ -423,36 +620,54 @@ class IdxEvaluator:
                         tg = [x for val, x in targets if idx is not None and val == str(idx)]
                         for x in (tg or [t["otherwise"]]):
                             work.append(s0.fork(block=x))
+                    elif is_lin(v) and is_const(v):
+                        tg = [x for val, x in targets if val == str(v[2])]
+                        for x in (tg or [t["otherwise"]]):
+                            work.append(s0.fork(block=x))
                     else:
                         for x in sorted(set([x for _, x in targets] + [t["otherwise"]])):
                             s1 = s0.fork(block=x)
+                            if s1.precise:
+                                s1.why = "branch on a value without a linear form at %s:%s" % (
+                                    f.path.split("::")[-1], t.get("ln"))
                             s1.precise = False
                             work.append(s1)
                 elif k in ("call", "tailcall"):
                     g = callee_generic(t) or ""
                     if g.endswith("Index::index") or g.endswith("IndexMut::index_mut"):
-                        leaves.append((s0.poly, ("access", self.operand(s0, t["args"][1])), s0.precise))
+                        ix = self.operand(s0, t["args"][1])
+                        if isinstance(ix, tuple) and ix and ix[0] == "range" and is_lin(ix[1]) and is_lin(ix[2]):
+                            # container[a..b]: panics unless a <= b <= len, otherwise yields positions a, a+1, .., b-1
+                            for s1, rev in self.split_sign(s0, lsub(ix[2], ix[1])):
+                                if rev:
+                                    leaves.append((s1.poly, ("raise",), s1.precise, s1.trace))
+                                    continue
+                                for s2, inside in self.split_sign(s1, lsub(ix[2], ladd(LEN, const(1)))):
+                                    leaves.append((s2.poly, ("bulk", ix[1], ix[2]) if inside else ("raise",),
+                                                   s2.precise, s2.trace))
+                            continue
+                        leaves.append((s0.poly, ("access", ix), s0.precise, s0.trace))
                         continue
                     for (s1, res) in self.call(s0, t, depth):
-                        if isinstance(res, tuple) and res and res[0] in ("raise", "diverge", "giveup"):
-                            leaves.append((s1.poly, res, s1.precise))
+                        if isinstance(res, tuple) and res and res[0] in ("raise", "diverge", "giveup", "limit", "bulk"):
+                            leaves.append((s1.poly, res, s1.precise, s1.trace))
                         elif isinstance(res, tuple) and res and res[0] == "access-in-callee":
-                            leaves.append((s1.poly, ("access", res[1]), s1.precise))
+                            leaves.append((s1.poly, ("access", res[1]), s1.precise, s1.trace))
                         elif t.get("to") is None:
-                            leaves.append((s1.poly, ("raise",), s1.precise))
+                            leaves.append((s1.poly, ("raise",), s1.precise, s1.trace))
                         else:
                             s2 = s1.fork(block=t["to"])
                             if not t["d"]["p"]:
                                 s2.env[t["d"]["l"]] = res
                             work.append(s2)
                 else:
-                    leaves.append((s0.poly, ("giveup",), False))
+                    leaves.append((s0.poly, ("giveup",), False, s0.trace))
         return leaves
 
 
 # ----------------------------------------------------------------------------------------------------------------
-REGIONS = [
-    # name, constraints, expected ('oob',) or ('elem', form)
+# 1. single-element indexing
+INDEX_REGIONS = [
     ("idx < -len", [lt0(ladd(IDX, LEN))], ("oob",)),
     ("-len <= idx < 0", [ge0(ladd(IDX, LEN)), lt0(IDX)], ("elem", ladd(IDX, LEN))),
     ("0 <= idx < len", [ge0(IDX), lt0(lsub(IDX, LEN))], ("elem", IDX)),
@@ -460,22 +675,28 @@ REGIONS = [
 ]
 
 
+def equal_on(poly, a, b):
+    """a == b everywhere on the polyhedron"""
+    d = lsub(a, b)
+    return poly.with_(ge0(ladd(d, const(-1)))).empty() and poly.with_(ge0(ladd(lneg(d), const(-1)))).empty()
+
+
 def check_kernel(F, f, idx_arg, len_arg, kind):
     """kind: 'access' (raises when out of range, accesses an element otherwise) or 'option' (None / Some(pos)).
-    -> (leaves evaluated, violations [(region, outcome text, witness)], undecided count)"""
+    -> (leaves evaluated, violations, undecided count)"""
     ev = IdxEvaluator(F)
     viol, undec, n = [], 0, 0
-    for name, cons, want in REGIONS:
-        poly = Poly([(0, 1, 0)] + cons)
+    for name, cons, want in INDEX_REGIONS:
+        poly = Poly([ge0(LEN)] + cons)
         if poly.empty():
             continue
         args = [TOP] * f.argc
         args[idx_arg - 1] = IDX
         if len_arg:
             args[len_arg - 1] = LEN
-        for (p, outcome, precise) in ev.evaluate(f, args, poly):
+        for (p, outcome, precise, trace) in ev.evaluate(f, args, poly):
             n += 1
-            if not precise or outcome[0] == "giveup":
+            if not precise or outcome[0] in ("giveup", "limit"):
                 undec += 1
                 continue
             got = None
@@ -487,18 +708,139 @@ def check_kernel(F, f, idx_arg, len_arg, kind):
                 v = outcome[1]
                 if kind == "option" and isinstance(v, tuple) and v[0] == "opt":
                     got = ("oob",) if v[1] == "None" else ("elem", v[2] if len(v) > 2 else TOP)
-                elif kind == "access":
-                    undec += 1       # returned without an access we could see
-                    continue
-                else:
-                    undec += 1
-                    continue
             if got is None or (got[0] == "elem" and not is_lin(got[1])):
                 undec += 1
                 continue
-            if got != want:
+            same = got[0] == want[0] and (got[0] == "oob" or equal_on(p, got[1], want[1]))
+            if not same:
+                w = p.witness()
+                if w is None:
+                    undec += 1
+                    continue
                 viol.append({"region": name, "expected": "out of range" if want[0] == "oob" else
                              "element " + fmt(want[1]),
                              "got": "out of range" if got[0] == "oob" else "element " + fmt(got[1]),
-                             "witness": p.witness()})
+                             "witness": {k: w[k] for k in ("idx", "len")}})
+    check_kernel.reasons = sorted(ev.reasons)
+    return n, viol, undec
+
+
+# ----------------------------------------------------------------------------------------------------------------
+# 2. slices: Python's slice.indices(len), then  i = start; while (i < end | i > end): take i; i += step
+def _bound_regions(v, positive, is_start):
+    """regions of one explicit slice bound v -> [(name, constraints, normalised form)]"""
+    vl = ladd(v, LEN)
+    if positive:
+        return [("%s < -len", [lt0(vl)], const(0)),
+                ("-len <= %s < 0", [ge0(vl), lt0(v)], vl),
+                ("0 <= %s <= len", [ge0(v), ge0(lsub(LEN, v))], v),
+                ("%s > len", [lt0(lsub(LEN, v))], LEN)]
+    lm1 = ladd(LEN, const(-1))
+    return [("%s < -len", [lt0(vl)], const(-1)),
+            ("-len <= %s < 0", [ge0(vl), lt0(v)], vl),
+            ("0 <= %s < len", [ge0(v), lt0(lsub(v, LEN))], v),
+            ("%s >= len", [ge0(lsub(v, LEN))], lm1)]
+
+
+def check_slice_kernel(F, f, arg_start, arg_end, arg_step, max_viol=6):
+    """-> (leaves, violations, undecided). Arguments are 1-based positions of start / end / step."""
+    ev = IdxEvaluator(F, loop_limit=3)
+    viol, undec, n = [], 0, 0
+    step_is_opt = "Option" in f.local_ty(arg_step)
+    step_cfgs = [(True, True), (False, True)] + ([(True, False)] if step_is_opt else [])
+    for positive, has_step in step_cfgs:
+        step_con = [ge0(ladd(STEP, const(-1)))] if positive else [lt0(STEP)]
+        if not has_step:            # omitted step = 1
+            step_con = [ge0(ladd(STEP, const(-1))), ge0(lsub(const(1), STEP))]
+        for has_start in (False, True):
+            for has_end in (False, True):
+                s_regs = _bound_regions(IDX, positive, True) if has_start else \
+                    [("start omitted", [], const(0) if positive else ladd(LEN, const(-1)))]
+                e_regs = _bound_regions(END, positive, False) if has_end else \
+                    [("end omitted", [], LEN if positive else const(-1))]
+                for (sn, sc, S) in s_regs:
+                    for (en, ec, E) in e_regs:
+                        poly = Poly([ge0(LEN)] + step_con + sc + ec)
+                        if poly.empty():
+                            continue
+                        args = [TOP] * f.argc
+                        args[arg_start - 1] = ("opt", "Some", IDX) if has_start else ("opt", "None")
+                        args[arg_end - 1] = ("opt", "Some", END) if has_end else ("opt", "None")
+                        args[arg_step - 1] = (("opt", "Some", STEP) if has_step else ("opt", "None")) \
+                            if step_is_opt else STEP
+                        cfg = "step %s, %s, %s" % (("> 0" if positive else "< 0") if has_step else "omitted",
+                                                   (sn % "start") if has_start else sn,
+                                                   (en % "end") if has_end else en)
+                        # continue conditions of iteration k (k = 0, 1):  S + k*step < E   /   > E
+                        def cont(k):
+                            cur = ladd(S, lscale(STEP, k))
+                            return lsub(cur, E) if positive else lsub(E, cur)      # < 0  <=> continue
+                        for (p, outcome, precise, trace) in ev.evaluate(f, args, poly):
+                            n += 1
+                            if not precise or outcome[0] == "giveup":
+                                undec += 1
+                                continue
+                            gets = [g for g in trace if g[0] == "get"]
+                            bad = None
+                            wp = p
+                            if outcome[0] == "access":
+                                undec += 1          # a single-element access inside a slice kernel: not modelled
+                                continue
+                            if outcome[0] == "return" and not gets:
+                                rv_ = outcome[1]
+                                if isinstance(rv_, tuple) and rv_ and rv_[0] == "res" and len(rv_) > 2:
+                                    rv_ = rv_[2]
+                                if isinstance(rv_, tuple) and rv_ and rv_[0] == "seq":
+                                    outcome = ("bulk", rv_[1], rv_[2])
+                            if outcome[0] == "raise":
+                                bad = "the kernel panics / raises although the step is not zero"
+                            elif outcome[0] == "bulk":
+                                a, b = outcome[1], outcome[2]
+                                one = equal_on(p, STEP, const(1))
+                                nonempty = p.with_(lt0(cont(0)))          # S < E possible here
+                                if not one:
+                                    bad = "a contiguous range %s..%s is returned although the step is not 1" % (
+                                        fmt(a), fmt(b))
+                                elif not nonempty.empty() and not (equal_on(nonempty, a, S) and equal_on(nonempty, b, E)):
+                                    bad = "the contiguous range %s..%s is returned, Python takes %s..%s" % (
+                                        fmt(a), fmt(b), fmt(S), fmt(E))
+                                    wp = nonempty
+                                else:
+                                    empty_side = p.with_(ge0(cont(0)))     # S >= E: result must be empty, i.e. a >= b
+                                    if not empty_side.empty() and not empty_side.with_(lt0(lsub(a, b))).empty():
+                                        bad = "the non-empty range %s..%s is returned where Python's slice is empty" % (
+                                            fmt(a), fmt(b))
+                                        wp = empty_side.with_(lt0(lsub(a, b)))
+                            else:
+                                for k, g in enumerate(gets[:2]):
+                                    want = ladd(S, lscale(STEP, k))
+                                    if not equal_on(p, g[1], want):
+                                        bad = "element %d of the result is taken from position %s, Python takes %s" % (
+                                            k, fmt(g[1]), fmt(want))
+                                        break
+                                    if not p.with_(ge0(cont(k))).empty():
+                                        bad = "element %d (position %s) is taken although the slice is already " \
+                                              "exhausted there" % (k, fmt(g[1]))
+                                        wp = p.with_(ge0(cont(k)))
+                                        break
+                                    if not g[2]:
+                                        bad = "position %s lies outside the container" % fmt(g[1])
+                                        break
+                                if bad is None and len(gets) < 2 and outcome[0] == "return":
+                                    k = len(gets)
+                                    if not p.with_(lt0(cont(k))).empty():
+                                        bad = "the result stops after %d element(s) although position %s is still " \
+                                              "inside the slice" % (k, fmt(ladd(S, lscale(STEP, k))))
+                                        wp = p.with_(lt0(cont(k)))
+                            if bad:
+                                w = wp.witness()
+                                if w is None:
+                                    undec += 1
+                                    continue
+                                if len(viol) < max_viol:
+                                    viol.append({"case": cfg, "what": bad,
+                                                 "witness": {"start": w["idx"] if has_start else None,
+                                                             "end": w["end"] if has_end else None,
+                                                             "step": w["step"], "len": w["len"]}})
+    check_slice_kernel.reasons = sorted(ev.reasons)
     return n, viol, undec
